@@ -113,6 +113,8 @@ def verify_function(make_ctx, reg, qualname, timeout_ms=10000, both=False):
                     run.obj(selfv).fields[f_] = reg.make_symbolic(it, ty, "self.%s" % f_, fresh=False)
             else:
                 selfv = reg.make_object(it, recv, "self", fresh=False)
+                for f_, ty in c.get("self_fields", {}).items():
+                    run.obj(selfv).fields[f_] = reg.make_symbolic(it, ty, "self.%s" % f_, fresh=False)
         pnames = [a.arg for a in fi.node.args.args]
         if not static:
             env[pnames[0]] = selfv
